@@ -129,7 +129,9 @@ def judge_cost(fit, ref, p, tag, implicit_no_errors=None):
         raise Violation(f"cost[{spec['type']}:{_cost_class(cid)}]", f"{tag}: cost_function_value={got!r}, documented -2lnL={want!r} (diff {got - want:.3g}, tol {tol:.2g}); "
                         f"cost id {cid!r}, sources {[(s['name'], s['ref'], s.get('axis'), s['kind'], 'rel' if s['relative'] else 'abs', 'on' if s.get('enabled', True) else 'off') for s in spec['sources']]}, "
                         f"constraints {[c['kind'] for c in spec['constraints']]}, p={p}")
-    if needs_cov and cid not in (fs.GA_COV | fs.GA_POINT):
+    if needs_cov:
+        # also for the Gauss approximation: fit.total_cov_mat is the sum of the declared sources (the model values enter the cost, not this matrix); it is read
+        # *after* the cost so that a cost evaluation that touches the cached matrix shows (seeded change C01-f)
         Vref = ref.total_cov(p)
         with guard("total_cov_mat"):
             Vg = fit.total_cov_mat
